@@ -14,6 +14,9 @@ theorem Fld.extent_valid (a : Fld K) (ha : 0 < a.arr.s0 ∧ 0 < a.arr.s1) :
     a.extent.rmin ≤ a.extent.rmax ∧ a.extent.cmin ≤ a.extent.cmax := by
   simp only [Fld.extent, arrayExtent_eq]; omega
 
+/-- closed form of the generated accumulation of `insert` (breaks when the `+=` statements of `insert` change) -/
+theorem insertTerm_eq [Add K] [Mul K] (post : K → K) (o d w : K) : insertTerm post o d w = o + post d * w := rfl
+
 /-! ### `Gen.insertIdx` (translated from `lentil.field.insert`) addresses exactly the part of the field inside the target -/
 
 theorem insertIdx_none (s0 s1 o0 o1 S0 S1 : Int)
